@@ -173,10 +173,11 @@ def expected(sc):
 
 class Config:
     def __init__(self, nodes, ppn, routing="NONE", buf_kb=None, buf_bytes=None, irecvs=8, isends_wait=4, issend=8,
-                 policy="uniform", eager=50, sim_seed=1):
+                 policy="uniform", eager=50, sim_seed=1, deviate=None):
         self.nodes, self.ppn, self.routing = nodes, ppn, routing
         self.buf_kb, self.irecvs, self.isends_wait, self.issend = buf_kb, irecvs, isends_wait, issend
         self.policy, self.eager, self.sim_seed = policy, eager, sim_seed
+        self.deviate = deviate or {}      # systematic exploration: {decision index: offset from the seeded choice}
 
     @property
     def n(self):
@@ -192,6 +193,8 @@ class Config:
              "YGM_COMM_NUM_ISENDS_WAIT": self.isends_wait, "YGM_COMM_ISSEND_FREQ": self.issend}
         if self.buf_kb is not None:
             e["YGM_COMM_BUFFER_SIZE_KB"] = self.buf_kb
+        if getattr(self, "deviate", None):
+            e["SIMMPI_DEVIATE"] = ",".join(f"{j}:{a}" for j, a in sorted((int(k), int(v)) for k, v in self.deviate.items()))
         return e
 
     def key(self):
